@@ -21,10 +21,13 @@
 (*                  (C03), also when the destination is a layer at an offset *)
 (*                  (C06)                                                    *)
 (* PINNED selects the code of the pinned commit for push_clip_rect and       *)
-(* push_layer.                                                               *)
+(* push_layer; LAYERFULL the repaired push_layer whose layer covers the      *)
+(* whole surface, which is what makes pops that cross (a clip pushed before  *)
+(* a layer popped while the layer is open) satisfy AccessesOK.               *)
 EXTENDS Geom, TLC
 
-CONSTANTS W, H, PINNED
+CONSTANTS W, H, PINNED,
+          LAYERFULL    \* a layer covers the whole surface (the repaired push_layer) instead of the clip bounds at push time
 VARIABLES cstack,      \* implementation clip stack: sequence of [rect, mask] (mask = set of ids, or <<"none">>)
           pstack,      \* specification clip stack: sequence of [kind, rect] / [kind, id]
           lstack,      \* layer stack: sequence of [rect]  (both levels; the spec's layer is conceptually unbounded)
@@ -64,7 +67,9 @@ ClipRefines ==
 (*--------------------------------- layers --------------------------------*)
 PushLayer ==
   LET cb == TopRect
-      r == IF PINNED THEN cb ELSE (IF BoxEmpty(BoxMeet(cb, Surf)) THEN Box(0, 0, 0, 0) ELSE BoxMeet(cb, Surf))
+      r == IF PINNED THEN cb
+           ELSE IF LAYERFULL THEN Surf
+           ELSE (IF BoxEmpty(BoxMeet(cb, Surf)) THEN Box(0, 0, 0, 0) ELSE BoxMeet(cb, Surf))
   IN lstack' = Append(lstack, [rect |-> r])
 \* vec![0; (w * h) as usize]: a negative product cannot be allocated
 LayerAllocOK(l) == BoxW(l.rect) * BoxH(l.rect) >= 0
